@@ -257,8 +257,17 @@ fn has_nonfinite(r: &Record) -> bool {
     }
 }
 
-/// F29: is `read` what serde_json (without float_roundtrip) makes of `written`, differing only in Number
-/// values whose shortest decimal form it does not parse back exactly?  Returns those values.
+/// the f64 values of the Numbers in a record's context
+fn numbers_of(r: &Record) -> Vec<f64> {
+    match &r.kind {
+        RecordKind::Lint { context, .. } => context.iter().filter_map(|t| if let TokenKind::Number(n) = &t.kind { Some(n.value.0) } else { None }).collect(),
+        _ => vec![],
+    }
+}
+
+/// Diagnosis only (F29, fixed by abf6ba7; reappears when float_roundtrip is switched off again): is `read`
+/// what serde_json makes of `written`, differing only in Number values whose printed decimal form it does
+/// not parse back exactly?  Returns those values.
 fn float_drift(written: &Record, read: &Record) -> Option<Vec<f64>> {
     if written.when != read.when || written.uuid != read.uuid {
         return None;
@@ -289,7 +298,7 @@ fn float_drift(written: &Record, read: &Record) -> Option<Vec<f64>> {
     if vals.is_empty() { None } else { Some(vals) }
 }
 
-/// Some(drifted values) when `got` equals `written` up to F29 float drift (empty = identical)
+/// Some(drifted values) when `got` equals `written` up to float drift (empty = identical)
 fn equal_up_to_drift(written: &[Record], got: &[Record]) -> Option<Vec<f64>> {
     if written.len() != got.len() {
         return None;
@@ -323,7 +332,7 @@ impl LogChecker {
     }
 
     /// one record: its line, the shape of the line (L case), the serde contract (monitored)
-    fn check_record_line(&mut self, rep: &mut Report, r: &Record, inp: &Value) -> (Vec<u8>, Option<Record>) {
+    fn check_record_line(&mut self, rep: &mut Report, r: &Record, outside: bool, inp: &Value) -> (Vec<u8>, Option<Record>) {
         let line = serde_json::to_vec(r).unwrap_or_default();
         let back = serde_json::from_slice::<Record>(&line).ok();
         let first = self.seen_lines.insert(line.clone());
@@ -335,9 +344,9 @@ impl LogChecker {
             rep.monitor("contract: serialised record is LF-free and does not end in CR", 1);
         }
         match &back {
+            _ if outside => rep.monitor(if back.is_none() { "outside the property (synthetic record with a non-finite Number): from_str(to_string(r)) fails" } else { "outside the property (synthetic record with a non-finite Number): from_str(to_string(r)) succeeds" }, 1),
             Some(b) if b == r => rep.monitor("contract: from_str(to_string(r)) == r", 1),
             Some(_) => rep.monitor("contract_violated: from_str(to_string(r)) is a different record", 1),
-            None if has_nonfinite(r) => rep.monitor("contract_violated: from_str(to_string(r)) fails, r has a non-finite Number (F16)", 1),
             None => rep.monitor("contract_violated: from_str(to_string(r)) fails", 1),
         }
         if first {
@@ -376,16 +385,39 @@ impl LogChecker {
     }
 
     /// sessions of records -> real file (append mode) -> Stats::read; R and M cases; the property oracle
-    fn check_log(&mut self, rep: &mut Report, sessions: &[Vec<Record>], how: &[u8], origin: &str, dir: &str) {
+    ///
+    /// `from_text[s][i]`: record i of session s was made from a text (RecordKind::from_lint over a linted
+    /// Document) — the records the property quantifies over.  A record the harness assembled token by token
+    /// is in the quantifier too as long as a text could have produced its Numbers, i.e. they are finite:
+    /// the only constructors of a Number from text are lex_number (harper-core/src/lexing/mod.rs; accepts a
+    /// candidate only if `is_finite()`, b5c1992) and lex_hex_number (a u64 as f64), and JSON cannot denote a
+    /// non-finite number, so no imported record has one either.  A log holding a SYNTHETIC record with a
+    /// non-finite Number is therefore outside the property: correspondence (R, M) only, no oracle.
+    fn check_log(&mut self, rep: &mut Report, sessions: &[Vec<Record>], from_text: &[Vec<bool>], how: &[u8], origin: &str, dir: &str) {
         rep.eval();
         let all: Vec<Record> = sessions.iter().flatten().cloned().collect();
+        let all_from_text: Vec<bool> = sessions.iter().enumerate().flat_map(|(si, s)| (0..s.len()).map(move |i| (si, i))).map(|(si, i)| from_text.get(si).and_then(|f| f.get(i)).copied().unwrap_or(false)).collect();
         let inp = json!({"kind": "log", "origin": origin, "how": how,
             "sessions": sessions.iter().map(|s| s.iter().map(record_to_json).collect::<Vec<_>>()).collect::<Vec<_>>()});
+        // --- the lexer contract: every Number of a record made from text is finite (monitored; F16 if not)
+        for (ri, r) in all.iter().enumerate() {
+            if all_from_text[ri] {
+                let ns = numbers_of(r);
+                let nf = ns.iter().filter(|x| !x.is_finite()).count();
+                rep.monitor("lexer: a Number in a record made from text is finite", (ns.len() - nf) as u64);
+                if nf > 0 {
+                    rep.monitor("lexer_violated: a record made from text holds a non-finite Number", nf as u64);
+                    rep.fail("nonfinite_from_text", format!("record {ri}, made by RecordKind::from_lint from a linted text, holds a Number whose value is not finite ({:?}): JSON cannot carry it", ns), inp.clone());
+                }
+            }
+        }
+        // outside the property's quantifier: a hand-assembled record with a Number no text can produce
+        let outside = all.iter().zip(&all_from_text).any(|(r, ft)| !*ft && has_nonfinite(r));
         // --- every record on its own
         let mut lines = vec![];
         let mut backs = vec![];
-        for r in &all {
-            let (l, b) = self.check_record_line(rep, r, &inp);
+        for (ri, r) in all.iter().enumerate() {
+            let (l, b) = self.check_record_line(rep, r, !all_from_text[ri] && has_nonfinite(r), &inp);
             lines.push(l);
             backs.push(b);
         }
@@ -454,7 +486,7 @@ impl LogChecker {
         }
         let file = std::fs::read(&path).unwrap_or_default();
         // (1) the file is the concatenation of the sessions, each record one line
-        if file != expected && prefix_ok {
+        if file != expected && prefix_ok && !outside {
             rep.fail("write_framing", format!("file after {} session(s) is not the concatenation of <record JSON> LF per record ({} vs {} bytes)", sessions.len(), file.len(), expected.len()), inp.clone());
         }
         // (2) read back
@@ -464,44 +496,42 @@ impl LogChecker {
         match &read {
             Ok(Ok(st)) => {
                 impl_read = st.records.iter().map(|r| all.iter().position(|x| x == r).unwrap_or(OTHER).to_string()).collect::<Vec<_>>().join(" ");
-                if st.records != all {
+                if outside {
+                    // no claim (correspondence only)
+                } else if st.records != all {
                     let i = st.records.iter().zip(&all).position(|(a, b)| a != b).unwrap_or(st.records.len().min(all.len()));
-                    // explained by serde_json's inexact float parsing and by nothing else?
-                    let d = equal_up_to_drift(&all, &st.records);
-                    let explained = d.is_some();
-                    let drift = d.unwrap_or_default();
-                    let cause = if explained && !drift.is_empty() {
-                        format!("Number value(s) {:?} in a lint context are not re-read exactly by serde_json (float_roundtrip is off); everything else is identical", drift)
-                    } else {
-                        "unexplained".to_string()
+                    // diagnosis: serde_json's float parsing not inverting its float printing, and nothing else?
+                    let cause = match equal_up_to_drift(&all, &st.records) {
+                        Some(drift) if !drift.is_empty() => {
+                            rep.count("log:has_float_drift");
+                            format!("Number value(s) {:?} in a lint context are not re-read exactly by serde_json (its parser does not invert its own float printing: float_roundtrip off?); everything else is identical", drift)
+                        }
+                        _ => "unexplained".to_string(),
                     };
                     rep.fail("readback_differs", format!("read back {} records for {} written; first difference at record {i}; cause: {cause}", st.records.len(), all.len()), inp.clone());
-                    if explained { rep.count("log:has_float_drift"); }
                 } else if !prefix_ok {
                     rep.fail("append_prefix", "the log read back wrongly after an intermediate session".into(), inp.clone());
                 }
             }
             Ok(Err(e)) => {
                 impl_read = "ERR".into();
-                // is the failure explained by records with a non-finite Number and by nothing else?
-                let cause = if !bad.is_empty() {
-                    let rest: Vec<Record> = all.iter().filter(|r| !has_nonfinite(r)).cloned().collect();
-                    let mut buf = vec![];
-                    let _ = Stats { records: rest.clone() }.write(&mut buf);
-                    let ok = match Stats::read(&mut &buf[..]) {
-                        Ok(st) => equal_up_to_drift(&rest, &st.records),
-                        Err(_) => None,
-                    };
-                    if let Some(drift) = ok {
-                        format!("non-finite Number in the context of record(s) {:?} serialised as null; the log without them reads back correctly{}", bad,
-                            if drift.is_empty() { String::new() } else { format!(" (up to the float drift of {:?}, F29)", drift) })
+                if !outside {
+                    // diagnosis: is the failure explained by records (made from text!) with a non-finite Number?
+                    let cause = if !bad.is_empty() {
+                        let rest: Vec<Record> = all.iter().filter(|r| !has_nonfinite(r)).cloned().collect();
+                        let mut buf = vec![];
+                        let _ = Stats { records: rest.clone() }.write(&mut buf);
+                        let ok = matches!(Stats::read(&mut &buf[..]), Ok(st) if st.records == rest);
+                        if ok {
+                            format!("non-finite Number in the context of record(s) {:?} (made from text) serialised as null; the log without them reads back correctly", bad)
+                        } else {
+                            "unexplained (removing the records with non-finite Numbers does not help)".to_string()
+                        }
                     } else {
-                        "unexplained (removing the records with non-finite Numbers does not help)".to_string()
-                    }
-                } else {
-                    "unexplained".to_string()
-                };
-                rep.fail("read_fails", format!("Stats::read rejects the whole log of {} records: {e}; cause: {cause}", all.len()), inp.clone());
+                        "unexplained".to_string()
+                    };
+                    rep.fail("read_fails", format!("Stats::read rejects the whole log of {} records: {e}; cause: {cause}", all.len()), inp.clone());
+                }
             }
             Err(p) => {
                 impl_read = "PANIC".into();
@@ -539,8 +569,13 @@ impl LogChecker {
         // distribution
         rep.count(&format!("log:sessions={}", sessions.len().min(5)));
         rep.count(&format!("log:records={}", bucket(all.len())));
-        if !bad.is_empty() {
-            rep.count("log:has_nonfinite_number");
+        if outside {
+            rep.count("log:outside_property(synthetic non-finite Number; correspondence only)");
+        } else if !bad.is_empty() {
+            rep.count("log:has_nonfinite_number_from_text");
+        }
+        if all.iter().any(|r| !numbers_of(r).is_empty()) {
+            rep.count("log:has_numbers");
         }
         if all.len() >= 2 && sessions.len() >= 2 {
             rep.nontrivial(&file);
@@ -825,6 +860,10 @@ fn gen_sessions(r: &mut Rng, dict: &FstDictionary, nonfinite: bool) -> Vec<Vec<R
         .collect()
 }
 
+fn flags(ss: &[Vec<Record>], v: bool) -> Vec<Vec<bool>> {
+    ss.iter().map(|s| vec![v; s.len()]).collect()
+}
+
 fn gen_how(r: &mut Rng, n: usize) -> Vec<u8> {
     (0..n).map(|_| *r.pick(&[0u8, 0, 0, 0, 1, 2])).collect()
 }
@@ -1106,12 +1145,21 @@ fn replay_input(rep: &mut Report, lc: &mut LogChecker, cx: &mut Ctx, v: &Value, 
             check_lines(rep, &b);
         }
         "log" => {
-            let sessions: Vec<Vec<Record>> = v["sessions"]
-                .as_array()
-                .map(|a| a.iter().map(|s| s.as_array().map(|rs| rs.iter().flat_map(|r| cx.records_from_json(r)).collect()).unwrap_or_default()).collect())
-                .unwrap_or_default();
+            let mut sessions: Vec<Vec<Record>> = vec![];
+            let mut from_text: Vec<Vec<bool>> = vec![];
+            for s in v["sessions"].as_array().map(|a| a.as_slice()).unwrap_or(&[]) {
+                let (mut rs, mut ft) = (vec![], vec![]);
+                for r in s.as_array().map(|a| a.as_slice()).unwrap_or(&[]) {
+                    let recs = cx.records_from_json(r);
+                    // "doc" = the records RecordKind::from_lint makes for the lints of that text
+                    ft.extend(std::iter::repeat(r["t"] == "doc").take(recs.len()));
+                    rs.extend(recs);
+                }
+                sessions.push(rs);
+                from_text.push(ft);
+            }
             let how: Vec<u8> = v["how"].as_array().map(|a| a.iter().map(|c| c.as_u64().unwrap_or(0) as u8).collect()).unwrap_or_default();
-            lc.check_log(rep, &sessions, &how, "replay", dir);
+            lc.check_log(rep, &sessions, &from_text, &how, "replay", dir);
         }
         "ls" => {
             let texts: Vec<Vec<String>> = serde_json::from_value(v["texts"].clone()).unwrap_or_default();
@@ -1206,7 +1254,7 @@ fn run(a: &Args, corpus: &[Value]) {
     for _ in 0..a.scale(1200, 6000) {
         let ss = gen_sessions(&mut r, &dict, false);
         let how = gen_how(&mut r, ss.len());
-        lc.check_log(&mut rep, &ss, &how, "random", &dir);
+        lc.check_log(&mut rep, &ss, &flags(&ss, false), &how, "random", &dir);
     }
     // records the JS API would log for the lints of generated documents
     for _ in 0..a.scale(120, 800) {
@@ -1219,13 +1267,15 @@ fn run(a: &Args, corpus: &[Value]) {
             ss.push(recs);
         }
         let how = gen_how(&mut r, ss.len());
-        lc.check_log(&mut rep, &ss, &how, "documents", &dir);
+        lc.check_log(&mut rep, &ss, &flags(&ss, true), &how, "documents", &dir);
     }
-    // the stream with non-finite numbers (F16)
+    // synthetic records with non-finite Numbers: NOT constructible from text (lex_number / lex_hex_number,
+    // JSON import), hence outside the property — kept as a correspondence-only stream (R: the model predicts
+    // that the implementation rejects the whole log; M)
     for _ in 0..a.scale(150, 800) {
         let ss = gen_sessions(&mut r, &dict, true);
         let how: Vec<u8> = gen_how(&mut r, ss.len()).into_iter().map(|m| m.min(1)).collect();
-        lc.check_log(&mut rep, &ss, &how, "nonfinite_stream", &dir);
+        lc.check_log(&mut rep, &ss, &flags(&ss, false), &how, "nonfinite_stream", &dir);
     }
     // ---- the real front ends
     for _ in 0..a.scale(25, 200) {
